@@ -12,13 +12,13 @@ PROP = dict(
     thorough=dict(n=160, len=30, shards=16, timeout=1700, extra=dict(c18="1")),
     nontrivial=r"^restart ", min_ops=6, min_kinds=2,
     shrink_budget=40, replay_timeout=300,
-    rule="one evaluation = one generated history on a real sqlite.Store with the real managers (contracts, accounts, settings, pin, webhooks, volume manager with real volume files in the V histories); after random prefixes and at the end every manager is closed (or, abrupt variant, the database files are copied while everything is open) and re-created on the same directory; every exported getter is compared before/after as canonical JSON, a test event is broadcast to a local HTTP sink before and after; non-trivial = the history contains a restart",
+    rule="one evaluation = one generated history on a real sqlite.Store with the real managers (contracts, accounts, settings, pin, webhooks, volume manager with real volume files in the V histories); after random prefixes and at the end every manager is closed (or, abrupt variant, the database files are copied while everything is open) and re-created on the same directory; what the MANAGERS serve (contracts.Manager.SectorRoots of every live v1/v2 contract, also checked against the signed revision's Merkle root and size; ConfigManager.Settings, pin.Manager.Pinned, AccountManager balances, webhooks.Manager.Webhooks, VolumeManager.Volumes/Usage and real sector reads; in the indexer histories index.Manager.Tip and the wallet balance) and every exported store getter are compared before/after as canonical JSON; the fields histories change every settings column and every pinned-settings column on its own after the first insert and reorder v1/v2 root lists (swap, free, trim + re-append, duplicates), a test event is broadcast to a local HTTP sink before and after; non-trivial = the history contains a restart",
     trusted_base=COMMON_TB + [
         "codeCtors in Model/Txn.lean transcribes what each constructor reloads and writes (file:line); the restart comparison on the real managers is the tie",
         "process exit is emulated in-process: Close of every manager + store (clean) or a byte copy of db/-wal/-shm taken between operations (abrupt); OS-level durability is assumed",
         "quiescence: no RPC is in flight at the restart (no open budget, no uncommitted ContractUpdater)",
     ],
-    level_text="Lean theorems over the persisted/memory split of each manager: for every reachable state of the sector-root cache model (adds, revisions, v1/v2 renewals of any length) the roots served for every non-superseded contract are the same after rebuild (restart_observe_roots, by an invariant); quiescent account manager, settings and pinned settings likewise; for webhooks the theorem holds for a constructor that loads the table and is refuted for one that does not (restart_observe_hooks / restart_hooks_lost; the current tree's constructor fact is `loads = false`); restart never changes the persisted part and the constructors write nothing but SetAvailable (open_is_readonly). Tied to the code by restarting the real managers on real databases after generated histories.",
+    level_text="Lean theorems over the persisted/memory split of each manager: for every reachable state of the sector-root cache model (adds, revisions, v1/v2 renewals of any length) the roots served for every non-superseded contract are the same after rebuild (restart_observe_roots, by an invariant); quiescent account manager, settings and pinned settings likewise; for webhooks the theorem holds for a constructor that loads the table and is refuted for one that does not (restart_observe_hooks / restart_hooks_lost; the current tree's constructor fact is `loads = false`); at row level the rebuilt root lists keep elements AND order for any physical row order as long as the query orders by root_index (restart_observe_roots_ordered, with an ORDER BY sector_id counterexample); every settings / pinned-settings FIELD is restart-stable when the upsert updates every inserted column, a missing column loses exactly that field, and the transcribed column lists are complete (restart_observe_fields, restart_field_lost, upsert_columns_complete); volumes are served available iff their file opens (restart_observe_volumes); the indexer tip (restart_observe_index); restart never changes the persisted part and the constructors write nothing but SetAvailable (open_is_readonly). Tied to the code by restarting the real managers on real databases after generated histories.",
     level_note="trusted: Lean kernel (+propext, Quot.sound), transcription of the constructors, harness canonicalisation; partial: real process exit / OS behaviour; schema migrations are exercised only as 'version = target: opening writes nothing' (upgrade paths are covered by the repository's own migration tests)",
     assumptions=["root lists are compared for non-superseded contracts only (DESIGN §6.5); stale predecessor entries are counted (`stale=`) but not flagged",
                  "sector access counters (reads, writes, cache hits/misses) are flushed by the recorder at Close and are excluded from the metrics comparison",
